@@ -2,8 +2,11 @@ package props
 
 import (
 	"go/ast"
+	"go/token"
 	"go/types"
 	"strings"
+
+	"golang.org/x/tools/go/packages"
 
 	"verif/checker/internal/core"
 	"verif/checker/internal/flow"
@@ -27,13 +30,14 @@ func init() {
 			{Name: "tag-not-appended", File: f, Old: "\t\t\t\t\t\t\t\tflds = append(flds, fld)\n\t\t\t\t\t\t\t\ttags = append(tags, tag)\n\t\t\t\t\t\t\t}\n\t\t\t\t\t\t}", New: "\t\t\t\t\t\t\t\tflds = append(flds, fld)\n\t\t\t\t\t\t\t\tif tag != \"\" {\n\t\t\t\t\t\t\t\t\ttags = append(tags, tag)\n\t\t\t\t\t\t\t\t}\n\t\t\t\t\t\t\t}\n\t\t\t\t\t\t}", Expect: "class-fields/named:one-field-one-tag"},
 			{Name: "receiver-by-value", File: f, Old: "\t\t\tType: &ast.StarExpr{\n\t\t\t\tX: &ast.Ident{Name: classType},\n\t\t\t},\n\t\t}}}\n\t}\n\n\tif d := f.ShadowEntry", New: "\t\t\tType: &ast.Ident{Name: classType},\n\t\t}}}\n\t}\n\n\tif d := f.ShadowEntry", Expect: "class-receiver/this-pointer"},
 			{Name: "only-exported-bound", File: f, Old: "\t\t\tif recv := d.Recv; recv == nil || len(recv.List) == 0 {\n\t\t\t\td.Recv = ctx.classRecv\n\t\t\t\td.IsClass = true\n\t\t\t}\n\t\t}\n\t\tname := d.Name", New: "\t\t\tif recv := d.Recv; (recv == nil || len(recv.List) == 0) && d.Name.IsExported() {\n\t\t\t\td.Recv = ctx.classRecv\n\t\t\t\td.IsClass = true\n\t\t\t}\n\t\t}\n\t\tname := d.Name", Expect: "class-methods/bound-to-receiver"},
+			{Name: "fields-decl-stops-at-const", File: "ast/ast_gop.go", Old: "\t\t\t\tif g.Tok == token.VAR {\n\t\t\t\t\treturn g\n\t\t\t\t}\n\t\t\t\tcontinue", New: "\t\t\t\tif g.Tok == token.VAR {\n\t\t\t\t\treturn g\n\t\t\t\t}\n\t\t\t\tif g.Tok == token.IMPORT {\n\t\t\t\t\tcontinue\n\t\t\t\t}\n\t\t\t\tbreak", Expect: "class-fields/ClassFieldsDecl:CONST"},
 			{Name: "struct-without-tags", File: f, Old: "\t\t\t\tdecl.InitType(p, types.NewStruct(flds, tags))\n\t\t\t}\n\t\t\tparent.tylds = append(parent.tylds, ld)", New: "\t\t\t\tdecl.InitType(p, types.NewStruct(flds[:len(flds)-1], nil))\n\t\t\t}\n\t\t\tparent.tylds = append(parent.tylds, ld)", Expect: "class-fields/struct-from-lists"},
 		},
 	})
 }
 
 func runC11(c *core.Check) {
-	prog := c.Load("./cl")
+	prog := c.Load("./cl", "./ast")
 	pk := prog.Pkg("./cl")
 	if pk == nil {
 		return
@@ -174,6 +178,23 @@ func runC11(c *core.Check) {
 	})
 	c.Decide(structOK, "class-fields", "struct-from-lists", fd.Pos(), "decl.InitType(p, types.NewStruct(flds, tags))", "the class type is no longer initialised from exactly the collected field and tag lists")
 
+	// (2b) which declaration holds the fields: the parser gives class-field syntax to the FIRST var declaration of a class
+	// file whatever precedes it; ast.File.ClassFieldsDecl (what cl takes as the field block) must therefore step over
+	// import, const and type declarations alike and return the first var declaration
+	if cf := prog.FuncDecl("./ast", "File.ClassFieldsDecl"); cf != nil {
+		apk := prog.Pkg("./ast")
+		for _, tok := range []string{"IMPORT", "CONST", "TYPE", "VAR"} {
+			got := c11EvalClassFieldsDecl(apk, cf, tok)
+			want := "continue"
+			if tok == "VAR" {
+				want = "return-decl"
+			}
+			c.Decide(got == want, "class-fields", "ClassFieldsDecl:"+tok, cf.Pos(), "a leading "+strings.ToLower(tok)+" declaration: "+want, "ast.File.ClassFieldsDecl does `"+got+"` on a leading "+strings.ToLower(tok)+" declaration (expected "+want+"): the var block the parser read with class-field syntax is not the one cl turns into fields — after a preceding "+strings.ToLower(tok)+" declaration the class gets no fields and the `fields` become package-level variables shared by all instances")
+		}
+	} else {
+		c.Bad("anchor", "ast.File.ClassFieldsDecl", 0, "not found")
+	}
+
 	// (3) the receiver
 	recvOK := false
 	ast.Inspect(fd.Body, func(n ast.Node) bool {
@@ -238,4 +259,108 @@ func runC11(c *core.Check) {
 		return true
 	})
 	c.Decide(bound, "class-methods", "bound-to-receiver", pf.Pos(), "every receiver-less function of a class file gets ctx.classRecv", "preloadFile no longer binds every function declaration of a class file that has no receiver to the class receiver (the guard gained a condition or the assignment is gone): some functions of the class file become package-level functions instead of methods")
+}
+
+// c11EvalClassFieldsDecl interprets the loop body of ClassFieldsDecl for one declaration that is a *GenDecl with the
+// given token: "continue", "break", "return-decl", "return-nil" or "unknown".
+func c11EvalClassFieldsDecl(apk *packages.Package, fd *ast.FuncDecl, tok string) string {
+	var loop *ast.RangeStmt
+	ast.Inspect(fd.Body, func(n ast.Node) bool {
+		if rs, ok := n.(*ast.RangeStmt); ok && loop == nil {
+			loop = rs
+		}
+		return true
+	})
+	if loop == nil {
+		return "unknown"
+	}
+	info := apk.TypesInfo
+	condVal := func(e ast.Expr) (bool, bool) {
+		e = ast.Unparen(e)
+		if id, ok := e.(*ast.Ident); ok && id.Name == "ok" {
+			return true, true // the declaration is a *GenDecl
+		}
+		if be, ok := e.(*ast.BinaryExpr); ok && (be.Op == token.EQL || be.Op == token.NEQ) && strings.HasSuffix(core.ExprStr(be.X), ".Tok") {
+			if k := constOf(info, be.Y); k != nil {
+				return (k.Name() == tok) == (be.Op == token.EQL), true
+			}
+		}
+		return false, false
+	}
+	var exec func(list []ast.Stmt) string
+	exec = func(list []ast.Stmt) string {
+		for _, st := range list {
+			switch x := st.(type) {
+			case *ast.IfStmt:
+				v, ok := condVal(x.Cond)
+				if !ok {
+					return "unknown"
+				}
+				if v {
+					if r := exec(x.Body.List); r != "" {
+						return r
+					}
+				} else if x.Else != nil {
+					var el []ast.Stmt
+					if b, ok := x.Else.(*ast.BlockStmt); ok {
+						el = b.List
+					} else {
+						el = []ast.Stmt{x.Else}
+					}
+					if r := exec(el); r != "" {
+						return r
+					}
+				}
+			case *ast.SwitchStmt:
+				if x.Tag == nil || !strings.HasSuffix(core.ExprStr(x.Tag), ".Tok") {
+					return "unknown"
+				}
+				var chosen, def *ast.CaseClause
+				for _, cs := range x.Body.List {
+					cc := cs.(*ast.CaseClause)
+					if cc.List == nil {
+						def = cc
+					}
+					for _, e := range cc.List {
+						if k := constOf(info, e); k != nil && k.Name() == tok {
+							chosen = cc
+						}
+					}
+				}
+				if chosen == nil {
+					chosen = def
+				}
+				if chosen != nil {
+					r := exec(chosen.Body)
+					if r == "break" {
+						r = "" // break leaves the switch only
+					}
+					if r != "" {
+						return r
+					}
+				}
+			case *ast.BranchStmt:
+				return x.Tok.String()
+			case *ast.ReturnStmt:
+				if len(x.Results) == 1 {
+					if id, ok := x.Results[0].(*ast.Ident); ok && id.Name == "nil" {
+						return "return-nil"
+					}
+				}
+				return "return-decl"
+			case *ast.BlockStmt:
+				if r := exec(x.List); r != "" {
+					return r
+				}
+			default:
+				return "unknown"
+			}
+		}
+		return ""
+	}
+	r := exec(loop.Body.List)
+	if r == "" {
+		return "continue" // falls off the loop body: next declaration
+	}
+	return r
 }
